@@ -699,7 +699,11 @@ class DictRefsContainer(RefsContainer):
           timezone: Optional timezone for reflog
           message: Optional message for reflog
         """
-        old = self.follow(name)[-1]
+        try:
+            # old value, only needed for the reflog entry
+            old = self.follow(name)[-1]
+        except SymrefLoop:
+            old = None
         new = SYMREF + other
         self._refs[name] = new
         self._notify(name, new)
@@ -1202,7 +1206,11 @@ class DiskRefsContainer(RefsContainer):
         f = GitFile(filename, "wb")
         try:
             f.write(SYMREF + other + b"\n")
-            sha = self.follow(name)[-1]
+            try:
+                # old value, only needed for the reflog entry
+                sha = self.follow(name)[-1]
+            except SymrefLoop:
+                sha = None
             self._log(
                 name,
                 sha,
